@@ -47,6 +47,9 @@ Stamp(t) == t - (t % P)
 \* frac: the run's clock is model time plus a constant fraction of a second, creation stamps are whole seconds
 Frac == "frac" \in DOMAIN par /\ par.frac
 ExpiredAt(cr, t) == IF Frac THEN t >= cr + E ELSE t > cr + E
+\* the system key cache has a size of its own (skcap, 0 = as large as the others): the caching clauses apply while it can hold
+\* every system key that exists
+SkFits == ~("skcap" \in DOMAIN par) \/ par.skcap = 0 \/ Cardinality({s \in store : SubSeq(s.id, 1, 4) # "_IK_"}) <= par.skcap
 
 NoOp == [kind |-> "none", part |-> "", start |-> 0, calls |-> 0, faults |-> 0, sfault |-> FALSE, scope |-> "", skscope |-> "",
          ikCreated |-> 0, recpart |-> "", op |-> "", reads |-> {}, ikid |-> "", kdecs |-> {}, ikreads |-> 0, ikstores |-> 0, ticked |-> FALSE, refusedParent |-> -1]
@@ -143,7 +146,7 @@ Kms == /\ IsEv("kms")
               skrec == {r \in store : r.kid = ev.kid /\ ~IsIK(r.id)}
               valid == \E r \in skrec : ~r.revoked /\ ~ExpiredAt(r.created, now)
               \* C20: a system key is unwrapped by the KMS at most once per factory per revoke-check interval
-              c20 == IF ev.call = "Dec" /\ ~flt /\ o.skscope # "none" /\ par.fits /\ ~o.ticked /\ valid /\ Has(kdec, key) /\ now <= kdec[key] + R
+              c20 == IF ev.call = "Dec" /\ ~flt /\ o.skscope # "none" /\ par.fits /\ SkFits /\ ~o.ticked /\ valid /\ Has(kdec, key) /\ now <= kdec[key] + R
                      THEN {"C20.KmsUnwrapOncePerInterval"} ELSE {}
           IN /\ ops' = [ops EXCEPT ![ev.p] = [o EXCEPT !.calls = @ + 1, !.faults = @ + (IF flt THEN 1 ELSE 0),
                                                       !.kdecs = @ \cup (IF ev.call = "Dec" /\ ~flt THEN {ev.kid} ELSE {})]]
@@ -191,7 +194,7 @@ Ret == /\ IsEv("ret")
               t == o.start
               pc == par.cfg[ev.p]
               nocache == pc.ik = "none" /\ ~pc.sk
-              cached == o.scope # "none" /\ par.fits /\ ~o.ticked
+              cached == o.scope # "none" /\ par.fits /\ ~o.ticked /\ SkFits
               common ==
                  (IF ev.panic # "" THEN {"C01/C07.NoPanicNoInputMutation"} ELSE {})
                  \cup (IF Len(ev.dirty) > 0 THEN {"C10.PlaintextKeyCopiesWiped"} ELSE {})
